@@ -239,19 +239,29 @@ def run_pack(rep, drv, tier, workers):
     cov["pack_native"] = nat
     cov["pack_configs"] = []
     klass = cov.setdefault("pack_classes", {})
+    import threading
+    import concurrent.futures as cf
+    lock = threading.Lock()
+    pool = cf.ThreadPoolExecutor(max_workers=2)
     for cfg, label in PACK_CFGS[tier]:
         st = {"n": 0, "bad": 0, "lawbad": 0}
 
-        def process(lines):
+        per_chunk = 1 if label == "U" else PER_CHUNK      # directed cases run one per runtime: a crash is attributed exactly
+
+        def process(lines, per_chunk=per_chunk):
             srcs, groups = [], []
-            for i in range(0, len(lines), PER_CHUNK):
-                grp = lines[i:i + PER_CHUNK]
+            for i in range(0, len(lines), per_chunk):
+                grp = lines[i:i + per_chunk]
                 stmts = []
                 for k, c in enumerate(grp):
                     stmts += pack_render(k, c)
                 srcs.append(wrap_chunk(stmts))
                 groups.append(grp)
             outs = lua_chunks(drv, srcs, 8 * PER_CHUNK)
+            with lock:
+                compare(groups, outs, srcs)
+
+        def compare(groups, outs, srcs):
             for grp, o, src in zip(groups, outs, srcs):
                 byk = {}
                 for e in o["events"]:
@@ -260,11 +270,12 @@ def run_pack(rep, drv, tier, workers):
                     # the first case without complete events is the culprit; the cases after it were not run
                     done = [k for k, c in enumerate(grp) if len(byk.get(k, {})) == len(pack_render(k, c))]
                     k = len(done)
-                    if not o["events"]:
+                    if not o["events"] and len(grp) > 1:
                         raise Infra("generated chunk did not start: %s" % o.get("crash", "hang")[:500])
                     c = grp[k]
                     sig = pack_sig_base(c)
-                    sig.update(fn="pack/unpack", why="crash" if "crash" in o else "hang", reason="", at="")
+                    sig.update(fn="unpack" if "data" in c else "pack/unpack", why="crash" if "crash" in o else "hang",
+                               reason=c["unp"].get("why", "") if "data" in c else "", at=c["unp"].get("at", "") if "data" in c else "")
                     rep.violation(sig, {"cmd": "lua-run", "format": "".join(c["f"]), "case": c, "detail": o.get("crash", "hang"),
                                         "src": "\n".join(pack_render(0, c))})
                     st["bad"] += 1
@@ -292,18 +303,30 @@ def run_pack(rep, drv, tier, workers):
                                     "spec_pack": c.get("pack"), "real": byk.get(k, {}).get("p")}, cap=6)
 
         buf = []
+        futs = []
+
+        def submit():
+            futs.append(pool.submit(process, buf[:]))
+            del buf[:]
+            while len(futs) > 2:          # bound the memory: at most two batches in flight while TLC keeps producing
+                futs.pop(0).result()
 
         def on_line(v):
             buf.append(v)
-            if len(buf) >= 120000:
-                process(buf[:])
-                del buf[:]
+            if len(buf) >= 60000:
+                submit()
 
-        res = run_tlc("PackMC", cfg, timeout=3000, on_line=on_line, consts=consts, workers=workers)
+        try:
+            res = run_tlc("PackMC", cfg, timeout=3000, on_line=on_line, consts=consts, workers=workers)
+            if buf:
+                submit()
+            for f in futs:
+                f.result()
+        finally:
+            for f in futs:
+                f.cancel()
         if res.violation:
             raise Infra("Pack.tla: the spec's own round-trip law failed (%s on %s): fix the spec" % (res.violation, cfg))
-        if buf:
-            process(buf[:])
         if st["lawbad"]:
             raise Infra("Pack.tla emitted %d cases with law = FALSE" % st["lawbad"])
         cov["states"] += res.distinct
@@ -521,7 +544,8 @@ def run_printf(rep, drv, tier, workers):
             else:
                 vclass = "highbytes" if any(x >= 128 for x in a["b"]) else "ascii"
             sig = {"part": "printf", "cv": c["cv"], "why": why[0], "minus": "-" in fl, "plus": "+" in fl, "space": " " in fl,
-                   "alt": "#" in fl, "zero": "0" in fl, "width": c["w"] > 0, "prec": c["p"] >= 0, "prec0": c["p"] == 0, "signflag": "+" in fl or " " in fl, "vclass": vclass}
+                   "alt": "#" in fl, "zero": "0" in fl, "width": c["w"] > 0, "prec": c["p"] >= 0, "prec0": c["p"] == 0, "signflag": "+" in fl or " " in fl,
+                   "wp": c["w"] > 0 or c["p"] >= 0, "vclass": vclass}
             args = c["args"] if "args" in c else [c["arg"]]
             rep.violation(sig, {"cmd": "lua-run", "detail": why[1], "format": bytes(c["fmt"]).decode("latin-1"),
                                 "args": [lua_val(x) for x in args],
@@ -552,6 +576,9 @@ def run(prop, tier, parts=None, workers=None):
         "string.packsize and passed to the spec as constants",
         "error messages are not compared, only error versus no error",
         "the text produced by %q is not compared (any text that denotes the value is allowed)",
+        "tonumber(tostring(n)) == n is a law checked on the real code with Lua's == (the manual leaves tostring's number format "
+        "open); the spec only supplies the number lattice",
+        "float conversions (%e %f %g %a) and flag/conversion combinations that ISO C leaves undefined are not generated",
     ]
     fam = {}
     for sig, _ in rep.violations:
